@@ -329,6 +329,14 @@ func ParentMain(id, tier string, seed int64) int {
 			fmt.Fprintf(os.Stderr, "INTERNAL: worker spawn failed: %s\n", d.Stderr)
 			return 2
 		}
+		if d.Kind == "oom" && p.SearchUnit != nil && p.SearchUnit(d.Unit) {
+			// a state search keeps its visited set in memory: running out of it is the search's budget,
+			// not behaviour of the library (the unit is reported as not exhaustively explored)
+			total.Outcomes["search-unit-out-of-memory(capped)"]++
+			complete = false
+			notes = append(notes, fmt.Sprintf("unit %s: the state search exceeded the worker's memory limit at case %d; reported as not exhaustive", d.Unit, d.Case))
+			continue
+		}
 		total.Outcomes["worker-death:"+d.Kind]++
 		sig := fmt.Sprintf("%s worker-death kind=%s unit=%s", id, d.Kind, unitClass(d.Unit))
 		if d.Label != "" {
